@@ -1,1 +1,59 @@
-fn main() { println!("hello"); }
+//! vharness <property> <quick|thorough> <seed> <driver> <out.json> [--search]
+mod alloc;
+mod core;
+mod gen;
+mod json;
+mod props;
+mod rng;
+mod text;
+
+#[global_allocator]
+static GLOBAL: alloc::Counting = alloc::Counting;
+
+use json::J;
+use std::sync::atomic::{AtomicU64, Ordering};
+
+pub static PROGRESS: AtomicU64 = AtomicU64::new(0);
+
+fn main() {
+    let args: Vec<String> = std::env::args().collect();
+    if args.len() < 6 {
+        eprintln!("usage: vharness <property> <quick|thorough> <seed> <driver> <out.json>");
+        std::process::exit(2);
+    }
+    let (prop, tier, seed, driver, out) = (&args[1], &args[2], args[3].parse::<u64>().unwrap_or(1), &args[4], &args[5]);
+    std::panic::set_hook(Box::new(|_| {}));
+    let t0 = std::time::Instant::now();
+    let cases = match props::cases(prop, tier, seed) {
+        Some(c) => c,
+        None => {
+            eprintln!("unknown property {}", prop);
+            std::process::exit(2);
+        }
+    };
+    let gen_s = t0.elapsed().as_secs_f64();
+    let mut rep = core::evaluate(prop, driver, cases);
+    // correspondence broke but no oracle failure in this batch: search wider on the implementation
+    let mut searched = 0usize;
+    if !rep.disagreements.is_empty() && rep.oracle_failures.is_empty() {
+        let budgets: &[(&str, u64)] = if tier == "thorough" { &[("thorough", 7), ("thorough", 8)] } else { &[("quick", 101), ("quick", 102), ("thorough", 103)] };
+        for (t, s) in budgets {
+            if let Some(more) = props::cases(prop, t, seed.wrapping_add(*s)) {
+                searched += more.len();
+                let r2 = core::evaluate(prop, driver, more);
+                if !r2.oracle_failures.is_empty() {
+                    rep.oracle_failures = r2.oracle_failures;
+                    rep.extra.insert("search_found_in".into(), J::s(&format!("{} seed+{}", t, s)));
+                    break;
+                }
+            }
+        }
+    }
+    rep.extra.insert("search_evaluations".into(), J::Int(searched as i64));
+    rep.extra.insert("generation_s".into(), J::Num(gen_s));
+    rep.extra.insert("harness_wall_s".into(), J::Num(t0.elapsed().as_secs_f64()));
+    rep.extra.insert("tier".into(), J::s(tier));
+    rep.extra.insert("seed".into(), J::Int(seed as i64));
+    std::fs::write(out, rep.to_json().to_string()).expect("cannot write the report");
+    let _ = PROGRESS.load(Ordering::Relaxed);
+}
